@@ -360,13 +360,23 @@ class NumpyFloatToFixConverter(object):
         # Scale and cast to appropriate int types
         vals = values * 2.0 ** self.n_frac
 
+        # The largest value of the format need not be representable in the
+        # floating point type of `vals` (e.g. 2**63 - 1 as a double or
+        # 2**31 - 1 as a single): it then rounds *up* when compared with, so
+        # clipping alone leaves values which wrap around when cast. Values at
+        # or above the (rounded) limit are set to the limit after casting.
+        too_large = vals >= self.max_value
+        vals = np.where(too_large, 0, vals)
+
         # Saturate the values
         vals = np.clip(vals, self.min_value, self.max_value)
 
         # **NOTE** for some reason just casting resulted in shape
         # being zeroed on some indeterminate selection of OSes,
         # architectures, Python and Numpy versions"
-        return np.array(vals, copy=True, dtype=self.dtype)
+        result = np.array(vals, copy=True, dtype=self.dtype)
+        result[too_large] = self.max_value
+        return result
 
 
 class NumpyFixToFloatConverter(object):
